@@ -7,6 +7,7 @@
 From CC Require Import Base.Prelude Base.Alloc Generated.Status Generated.Constants Generated.Guards.
 Local Open Scope N_scope.
 
+Definition SIZE_MAX : N := W - 1.
 Definition ARRAY_HDR : N := 56.   (* sizeof(CC_Array) *)
 Definition STACK_HDR : N := 32.   (* sizeof(CC_Stack) *)
 
@@ -37,6 +38,7 @@ Definition countN (l : list N) (x : N) : N := lenN (filter (fun y => y =? x) l).
 Definition arr_new (mem : tag) (capacity num den : N) (al : alloc_st) : stat * option arr * alloc_st :=
   let '(n, d) := if num <=? den then (DEFAULT_EXPANSION_FACTOR_num, DEFAULT_EXPANSION_FACTOR_den) else (num, den) in
   if (capacity =? 0) || (d * (CC_MAX_ELEMENTS / capacity) <=? n) then (CC_ERR_INVALID_CAPACITY, None, al) else
+  if g_array_new_bytes capacity SIZE_MAX then (CC_ERR_INVALID_CAPACITY, None, al) else   (* capacity * sizeof(void* ) must fit *)
   match alloc mem ARRAY_HDR al with
   | (None, a1) => (CC_ERR_ALLOC, None, a1)
   | (Some h, a1) =>
@@ -59,6 +61,7 @@ Definition arr_expand (a : arr) (al : alloc_st) : res (stat * arr * alloc_st) :=
   if g_array_expand_at_max (a_cap a) then Ok (CC_ERR_MAX_CAPACITY, a, al) else
   let new0 := (a_cap a * a_num a) / a_den a in
   let new := if g_array_expand_overflow new0 (a_cap a) then CC_MAX_ELEMENTS else new0 in
+  if g_array_expand_bytes new SIZE_MAX then Ok (CC_ERR_ALLOC, a, al) else
   match alloc (a_mem a) (wmul new 8) al with
   | (None, a1) => Ok (CC_ERR_ALLOC, a, a1)
   | (Some b, a1) =>
